@@ -19,7 +19,8 @@ NODE = "pyoak.node"
 def r_gram_arity(ck: Checker, modname: str, rule: str = "R-GRAM-ARITY") -> None:
     g = load(lift(ck.repo, modname, "xpath_grammar"))
     tcls = ck.repo.cls(modname, "XPathTransformer")
-    methods = {st.name: st for st in tcls.node.body if isinstance(st, ast.FunctionDef)}
+    methods = {st.name: ck.repo.func(modname, f"XPathTransformer.{st.name}").node for st in tcls.node.body
+               if isinstance(st, ast.FunctionDef) and not ck.repo.is_new_helper(tcls.mod, f"XPathTransformer.{st.name}")}
     n = 0
     for name, r in g.rules.items():
         fn = methods.get(name)
@@ -132,6 +133,25 @@ def r_shared(ck: Checker) -> None:
             ck.violation("R-XP-SHARED", f, f.node, what, construct=f"{q}: {len(cs)} calls of the shared predicate, {len(other_tests)} private class tests")
 
 
+def record_args(ck: Checker, e: ast.expr) -> list[str] | None:
+    """Positional view (node, parent, field, findex) of a traversal-record construction, keyword or positional."""
+    if not (isinstance(e, ast.Call) and dotted(e.func) in ("_NodeTraversalInfo", "NodeTraversalInfo")):
+        return None
+    fields = [st.target.id for st in ck.repo.cls("pyoak.node", "NodeTraversalInfo").node.body if isinstance(st, ast.AnnAssign) and isinstance(st.target, ast.Name)]
+    out: list[str | None] = [None] * len(fields)
+    if len(e.args) > len(fields) or any(isinstance(x, ast.Starred) for x in e.args):
+        return None
+    for i, x in enumerate(e.args):
+        out[i] = norm(x)
+    for k in e.keywords:
+        if k.arg not in fields or out[fields.index(k.arg)] is not None:
+            return None
+        out[fields.index(k.arg)] = norm(k.value)
+    if out[-1] is None:
+        out[-1] = "None"  # findex defaults to None
+    return out if all(x is not None for x in out) else None  # type: ignore[return-value]
+
+
 def r_root(ck: Checker) -> None:
     f = ck.repo.func(XP, "ASTXpath.findall")
     fn = f.node
@@ -158,7 +178,7 @@ def r_root(ck: Checker) -> None:
                 ok = False
                 break
             v = lf.val() or ""
-            if lf.assign[key] and v not in (f"_NodeTraversalInfo({p}.node, None, None, None)",):
+            if lf.assign[key] and (lf.value is None or record_args(ck, lf.value) != [f"{p}.node", "None", "None", "None"]):
                 ok = False
             if not lf.assign[key] and v != p:
                 ok = False
@@ -197,7 +217,17 @@ def r_root(ck: Checker) -> None:
         p, fl, ix = (norm(x) for x in src[0].targets[0].elts)
         nodev = norm(src[0].value.args[0])
         cs = [c for c in walk_body(g.node.body) if isinstance(c, ast.Call) and dotted(c.func) == "_match_node_element"]
-        ok = len(cs) == 1 and norm(cs[0].args[0]) == f"_NodeTraversalInfo({nodev}, {p}, {fl}, {ix})"
+        if len(cs) == 1 and cs[0].args:
+            arg0 = cs[0].args[0]
+            if isinstance(arg0, ast.Name):
+                binds = [st for st in walk_body(g.node.body) if isinstance(st, (ast.Assign, ast.AnnAssign))
+                         and norm(st.targets[0] if isinstance(st, ast.Assign) else st.target) == arg0.id and st.value is not None]
+                if len(binds) != 1:
+                    raise Unsupported("_match_node_xpath: the record handed to the predicate is bound more than once", g.node)
+                arg0 = binds[0].value
+            ok = record_args(ck, arg0) == [nodev, p, fl, ix]
+    elif not src:
+        raise Unsupported("_match_node_xpath: no tuple unpacking of tree.get_parent_info(node)", g.node)
     (ck.holds if ok else ck.violation)("R-XP-ROOT", g, g.node, what, **({} if ok else {"construct": "_match_node_xpath: record handed to the predicate is not (node, *get_parent_info(node))"}))
 
 
@@ -250,38 +280,66 @@ def r_anywhere(ck: Checker) -> None:
     treev, nodev, elsv = gp
     body = strip_docstring(g.node.body)
 
+    k_loop = "LOOP:some_ancestor_matches_tail"
+
+    def anc_iter(it: ast.expr) -> bool:
+        return isinstance(it, ast.Call) and isinstance(it.func, ast.Attribute) and it.func.attr == "get_ancestors" \
+            and norm(it.func.value) == treev and [norm(x) for x in it.args] == [nodev] and not it.keywords
+
     def hook(lp: ast.stmt, assign: dict) -> object:
-        if not (isinstance(lp, ast.For) and isinstance(lp.iter, ast.Call) and isinstance(lp.iter.func, ast.Attribute)
-                and lp.iter.func.attr == "get_ancestors" and norm(lp.iter.func.value) == treev and [norm(x) for x in lp.iter.args] == [nodev]):
+        if not (isinstance(lp, ast.For) and anc_iter(lp.iter)):
             raise Unsupported("loop in _match_node_xpath is not over tree.get_ancestors(node)", lp)
         anc = norm(lp.target)
         # body: if _match_node_xpath(tree, ancestor, tail): return True
         if not (len(lp.body) == 1 and isinstance(lp.body[0], ast.If) and not lp.body[0].orelse and len(lp.body[0].body) == 1
                 and isinstance(lp.body[0].body[0], ast.Return) and norm(lp.body[0].body[0].value) == "True"
-                and norm(lp.body[0].test).startswith(f"_match_node_xpath({treev}, {anc}, ")):
-            raise Unsupported("ancestor loop body is not `if _match_node_xpath(tree, ancestor, tail): return True`", lp)
-        if "LOOP:some_ancestor_matches_tail" not in assign:
-            raise NeedAtom("LOOP:some_ancestor_matches_tail", lp)
-        if assign["LOOP:some_ancestor_matches_tail"]:
+                and norm(lp.body[0].test) == f"_match_node_xpath({treev}, {anc}, {elsv}[1:])"):
+            raise Unsupported("ancestor loop body is not `if _match_node_xpath(tree, ancestor, <tail>): return True`", lp)
+        if k_loop not in assign:
+            raise NeedAtom(k_loop, lp)
+        if assign[k_loop]:
             return leave("return", lp.body[0].body[0].value)
         return None
 
-    rows = bool_function(body, loop_hook=hook, max_atoms=10,
-                         alias_filter=lambda st: True)
+    def call_hook(c: ast.Call, assign: dict) -> object:
+        """any(_match_node_xpath(tree, a, tail) for a in tree.get_ancestors(node)): the same abstraction as the loop."""
+        if dotted(c.func) != "any" or len(c.args) != 1 or not isinstance(c.args[0], (ast.GeneratorExp, ast.ListComp)):
+            return NotImplemented
+        g_ = c.args[0]
+        if len(g_.generators) != 1 or g_.generators[0].ifs or not anc_iter(g_.generators[0].iter):
+            return NotImplemented
+        if norm(g_.elt) != f"_match_node_xpath({treev}, {norm(g_.generators[0].target)}, {elsv}[1:])":
+            raise Unsupported("any(...) over the ancestors does not test `_match_node_xpath(tree, ancestor, <tail>)`", c)
+        if k_loop not in assign:
+            raise NeedAtom(k_loop, c)
+        return assign[k_loop]
+
+    tail_txt = f"{elsv}[1:]"
+
+    def dom(k: str) -> tuple:
+        if k == f"len({tail_txt})":
+            return (0, 1, 2)
+        if k == f"len({elsv})":
+            return (1, 2, 3)
+        return (True, False)
+
+    rows = bool_function(body, loop_hook=hook, call_hook=call_hook, max_atoms=10, alias_filter=lambda st: True, resolve=True,
+                         sized=(tail_txt,), domain=dom)
     # atoms
     bad = []
     k_any = f"{elsv}[0].anywhere"
     # the parent of the node as reported by the tree (first element of get_parent_info)
     pinfo = [st for st in body if isinstance(st, ast.Assign) and isinstance(st.value, ast.Call) and isinstance(st.value.func, ast.Attribute)
              and st.value.func.attr == "get_parent_info" and isinstance(st.targets[0], ast.Tuple)]
-    pvar = norm(pinfo[0].targets[0].elts[0]) if pinfo else "c_parent"
+    if not pinfo:
+        raise Unsupported("_match_node_xpath: the parent is not taken from a tuple unpacking of tree.get_parent_info(node)", g.node)
+    pvar = norm(pinfo[0].targets[0].elts[0])
     k_root = k_none(pvar)
-    k_loop = "LOOP:some_ancestor_matches_tail"
     for a, v, lf in rows:
         keys = list(a)
         step = [k for k in keys if k.startswith("_match_node_element(")]
-        tail_empty = [k for k in keys if k.startswith("eq(0,len(") or k.startswith("len(")]
-        direct = [k for k in keys if k.startswith(f"_match_node_xpath({treev}, {pvar}")]
+        tail_empty = [k for k in keys if k in (f"len({tail_txt})", f"len({elsv})")]
+        direct = [k for k in keys if k == f"_match_node_xpath({treev}, {pvar}, {tail_txt})"]
         if not step:
             bad.append("the current node is not tested against the current step")
             continue
@@ -291,7 +349,10 @@ def r_anywhere(ck: Checker) -> None:
             continue
         te = None
         for k in tail_empty:
-            te = (a[k] == 0) if k.startswith("len(") else a[k]
+            te = (a[k] == 0) if k == f"len({tail_txt})" else (a[k] <= 1)
+        unknown = [k for k in keys if k not in step and k not in tail_empty and k not in direct and k not in (k_any, k_root, k_loop)]
+        if unknown:
+            raise Unsupported(f"_match_node_xpath decides on {unknown}", g.node)
         if te is None:
             bad.append("the end of the path is not detected")
             continue
@@ -380,6 +441,17 @@ def r_xp_elements(ck: Checker, modname: str = XP, rule: str = "R-XP-ELEMENTS", m
     sem = _FactSem()
     Interp(sem, max_rounds=8).block(fn.body, {frozenset()})
     n = 0
+    n_mark = n_build = 0
+    # X._replace(anywhere=True): marks an element as 'anywhere', every other component kept by construction
+    for call in [x for x in walk_body(fn.body) if isinstance(x, ast.Call) and isinstance(x.func, ast.Attribute) and x.func.attr == "_replace"]:
+        kws = {k.arg: norm(k.value) for k in call.keywords}
+        what = "turning the last element into an 'anywhere' element keeps its class, field and index"
+        if call.args or set(kws) - {"anywhere"}:
+            ck.violation(rule, f, call, what, construct=f"XPathTransformer.xpath rebuilds an element as {norm(call)[:90]}")
+        elif kws.get("anywhere") == "True":
+            n += 1
+            n_mark += 1
+            ck.holds(rule, f, call, what, element=norm(call)[:80])
     for call in [x for x in walk_body(fn.body) if isinstance(x, ast.Call) and dotted(x.func) == "ASTXpathElement"]:
         n += 1
         args = {k.arg: k.value for k in call.keywords}
@@ -387,6 +459,7 @@ def r_xp_elements(ck: Checker, modname: str = XP, rule: str = "R-XP-ELEMENTS", m
             args[name] = a
         anyw = args.get("anywhere")
         if anyw is not None and isinstance(anyw, ast.Constant) and anyw.value is True:
+            n_mark += 1
             what = "turning the last element into an 'anywhere' element keeps its class, field and index"
             got = [norm(args.get(k)) if args.get(k) is not None else None for k in ("ast_class", "parent_field", "parent_index")]
             base = got[0].rsplit(".", 1)[0] if got[0] and got[0].endswith(".ast_class") else None
@@ -395,6 +468,7 @@ def r_xp_elements(ck: Checker, modname: str = XP, rule: str = "R-XP-ELEMENTS", m
             else:
                 ck.violation(rule, f, call, what, construct=f"XPathTransformer.xpath rebuilds an element as {norm(call)[:90]}")
         else:
+            n_build += 1
             what = "every compiled step has a class (the empty elements of '//' are folded until a real step is reached) and carries the field / index of that same step"
             cls_expr = args.get("ast_class")
             states = sem.at.get(id(call), [])
@@ -410,8 +484,8 @@ def r_xp_elements(ck: Checker, modname: str = XP, rule: str = "R-XP-ELEMENTS", m
                              construct="XPathTransformer.xpath: an element may be compiled with ast_class None (the fold over empty '//' elements does not run until a class is found)")
             else:
                 ck.violation(rule, f, call, what, construct=f"XPathTransformer.xpath: element fields {trio} do not come from one parsed step")
-    if n < min_count:
-        ck.incomplete(rule, None, None, f"only {n} ASTXpathElement constructions in the transformer ({min_count} expected)")
+    if n_build < 1 or (min_count > 1 and n_mark < 1):
+        ck.incomplete(rule, None, None, f"ASTXpathElement constructions in the transformer: {n_build} compiled steps, {n_mark} anywhere-markings (at least one of each expected)")
 
 
 def r_xp_once(ck: Checker) -> None:
@@ -442,28 +516,79 @@ def r_xp_once(ck: Checker) -> None:
     (ck.violation if bad else ck.holds)("R-XP-ONCE", f, fn, what, **({"construct": f"findall: {bad}"} if bad else {}))
 
 
+def _xpath_object_ok(lf, xp: str, recv: str) -> str | None:
+    """The receiver of .findall(self) on this path is the compiled form of the argument: ASTXpath(arg) for text, the argument itself otherwise."""
+    k = f"isinstance({xp}, str)"
+    if k not in lf.assign:
+        return "the argument is used without testing whether it is text"
+    rebound = any(isinstance(st, ast.Assign) and norm(st.targets[0]) == xp and norm(st.value) == f"ASTXpath({xp})" for st in lf.stmts)
+    if lf.assign[k]:
+        if not (recv == f"ASTXpath({xp})" or (recv == xp and rebound)):
+            return f"text argument: searches with {recv}"
+    elif not (recv == xp and not rebound):
+        return f"compiled argument: searches with {recv}"
+    return None
+
+
+def _stopiteration_guard(fn: ast.FunctionDef) -> bool:
+    """The next(...) return sits in a try whose StopIteration handler returns None."""
+    for st in ast.walk(fn):
+        if isinstance(st, ast.Try) and any(isinstance(r, ast.Return) and isinstance(r.value, ast.Call) and dotted(r.value.func) == "next" for r in walk_body(st.body)):
+            for h in st.handlers:
+                if h.type is not None and dotted(h.type) in ("StopIteration", "Exception") and len(h.body) == 1 and isinstance(h.body[0], ast.Return) \
+                        and (h.body[0].value is None or is_none(h.body[0].value)):
+                    return True
+    return False
+
+
 def r_find(ck: Checker) -> None:
     f = ck.repo.func(NODE, "ASTNode.find")
     fn = f.node
+    xp = fn.args.args[1].arg
     what = "find returns the first node findall yields, or None"
-    ok = False
-    for st in fn.body:
-        if isinstance(st, ast.Try) and len(st.body) == 1 and isinstance(st.body[0], ast.Return):
-            v = st.body[0].value
-            if isinstance(v, ast.Call) and dotted(v.func) == "next" and len(v.args) == 1 and norm(v.args[0]) in ("xpath.findall(self)", "self.findall(xpath)"):
-                hs = st.handlers
-                if len(hs) == 1 and dotted(hs[0].type) == "StopIteration" and len(hs[0].body) == 1 and isinstance(hs[0].body[0], ast.Return) \
-                        and (hs[0].body[0].value is None or is_none(hs[0].body[0].value)):
-                    ok = True
-        if isinstance(st, ast.Return) and isinstance(st.value, ast.Call) and dotted(st.value.func) == "next" and len(st.value.args) == 2 \
-                and norm(st.value.args[0]) in ("xpath.findall(self)", "self.findall(xpath)", "iter(xpath.findall(self))") and is_none(st.value.args[1]):
-            ok = True
-    (ck.holds if ok else ck.violation)("R-XP-FIND", f, fn, what, **({} if ok else {"construct": "find: first-of-findall idiom not recognised"}))
+    leaves = decision_tree(strip_docstring([st for st in fn.body if not isinstance(st, (ast.Import, ast.ImportFrom))]), resolve="calls", try_as_body=True)
+    bad = None
+    for lf in leaves:
+        v = lf.value
+        if lf.outcome == "return" and v is not None and ".findall(" in norm(v) and not (isinstance(v, ast.Call) and dotted(v.func) == "next"):
+            bad = f"returns {norm(v)[:60]} (not the first element findall yields)"
+            continue
+        if lf.outcome != "return" or not (isinstance(v, ast.Call) and dotted(v.func) == "next" and v.args):
+            raise Unsupported(f"find: a path does not return next(...): {lf.outcome} {lf.val()}", fn)
+        src = v.args[0]
+        while isinstance(src, ast.Call) and dotted(src.func) == "iter" and len(src.args) == 1:
+            src = src.args[0]
+        if not (isinstance(src, ast.Call) and isinstance(src.func, ast.Attribute) and src.func.attr == "findall" and [norm(x) for x in src.args] == ["self"]):
+            if isinstance(src, ast.Call) and isinstance(src.func, ast.Attribute) and norm(src.func.value) == "self" and src.func.attr == "findall" \
+                    and [norm(x) for x in src.args] == [xp]:
+                continue_ok = len(v.args) == 2 and is_none(v.args[1])
+                if not continue_ok and not _stopiteration_guard(fn):
+                    bad = "no match: StopIteration is not turned into None"
+                continue
+            bad = f"takes the first element of {norm(src)[:60]}"
+            continue
+        bad = bad or _xpath_object_ok(lf, xp, norm(src.func.value))
+        if len(v.args) == 2:
+            if not is_none(v.args[1]):
+                bad = bad or f"no match: returns {norm(v.args[1])}"
+        elif not _stopiteration_guard(fn):
+            bad = bad or "no match: StopIteration is not turned into None"
+    (ck.holds if not bad else ck.violation)("R-XP-FIND", f, fn, what, **({"evaluations": len(leaves)} if not bad else {"construct": f"find: {bad}"}))
     g = ck.repo.func(NODE, "ASTNode.findall")
-    ys = [n for n in walk_body(g.node.body) if isinstance(n, ast.YieldFrom)]
+    gx = g.node.args.args[1].arg
     what = "ASTNode.findall delegates to ASTXpath.findall(self)"
-    ok = len(ys) == 1 and norm(ys[0].value) == "xpath.findall(self)"
-    (ck.holds if ok else ck.violation)("R-XP-FIND", g, g.node, what, **({} if ok else {"construct": "findall: delegation not recognised"}))
+    leaves = decision_tree(strip_docstring([st for st in g.node.body if not isinstance(st, (ast.Import, ast.ImportFrom))]), resolve="calls")
+    bad = None
+    for lf in leaves:
+        ys = [n for st in lf.stmts for n in ast.walk(st) if isinstance(n, (ast.Yield, ast.YieldFrom))]
+        if len(ys) != 1 or not isinstance(ys[0], ast.YieldFrom):
+            raise Unsupported("findall: a path does not consist of one `yield from`", g.node)
+        src = ys[0].value
+        if not (isinstance(src, ast.Call) and isinstance(src.func, ast.Attribute) and src.func.attr == "findall" and [norm(x) for x in src.args] == ["self"]):
+            bad = f"yields from {norm(src)[:60]}"
+            continue
+        bad = bad or _xpath_object_ok(lf, gx, norm(src.func.value))
+    (ck.holds if not bad else ck.violation)("R-XP-FIND", g, g.node, what, **({"evaluations": len(leaves)} if not bad else {"construct": f"findall: {bad}"}))
     # relative paths
     c = ck.repo.func(XP, "ASTXpath.__init__")
     what = "a path that does not start with '/' is compiled as '//' + path"
